@@ -1024,3 +1024,32 @@ impl FragLexer {{
                        block, block, ['receiver Lexer -> FragLexer { before_from, after_where }; the recursive self.next_lexem() after `asc` returns a sentinel token'],
                        'character scanning (how a word is delimited), quote handling, date / expression look-ahead')
     return dict(functions=[r], dropped=[d])
+
+
+# --------------------------------------------------------------------------------------------------
+# function::get_value(): string arms (C16)
+# --------------------------------------------------------------------------------------------------
+SCALAR_ARMS = ['Substring', 'Length', 'Coalesce', 'Concat', 'ConcatWs', 'Replace', 'Trim', 'LTrim', 'RTrim']
+
+
+def unit_scalar(inj, scratch):
+    frag_begin(inj)
+    s = src('src/function.rs', scratch)
+    it = s.fn('get_value')
+    span = s.body_span(it)
+    recs, dropped = [], []
+    out = ['pub mod scalar {', 'use super::*;', H('frag_scalar_prelude.rs')]
+    for arm_name in SCALAR_ARMS:
+        a, b0, b1 = s.arm(r'Some\(Function::' + arm_name + r'\)', span, what=f'get_value arm Some(Function::{arm_name})')
+        body = dedent(s.text[b0:b1])
+        if 'entry' in re.findall(r'\b\w+\b', s.mask[b0:b1]) or 'file_info' in re.findall(r'\b\w+\b', s.mask[b0:b1]):
+            raise AnchorLost(f'get_value arm {arm_name} uses entry / file_info')
+        expr = body if body.startswith('{') else '{ ' + body + ' }'
+        out.append(f'pub fn frag_fn_{arm_name.lower()}(function_arg: String, function_args: Vec<String>) -> Variant {expr}')
+        r, d = frag_record(f'frag_fn_{arm_name.lower()}', 'src/function.rs', f'fn get_value / arm `Some(Function::{arm_name}) => ..` (verbatim)', body, body,
+                           ['Variant / VariantType -> shim types recording which constructor was called with which value'], 'the other arms, Variant string formatting')
+        recs.append(r); dropped.append(d)
+    out.append(H('frag_scalar.kani.rs'))
+    out.append('}')
+    inj.new_file(FRAG_FILE, '\n'.join(out) + '\n')
+    return dict(functions=recs, dropped=dropped)
